@@ -2,6 +2,7 @@ import ChythonModel.Py.Wire
 import ChythonModel.Py.Hash
 import ChythonModel.Model.Morgan
 import ChythonModel.Model.ChiralMorgan
+import ChythonModel.Model.C01Chiral
 import ChythonModel.Model.C01Check
 import ChythonModel.Gen.PeriodicTable
 /-!
@@ -10,6 +11,8 @@ Line-protocol driver for C01. Requests are `<op> <int> …`.
   order  N (id z iso(0=None) charge radical implH(-1=None) inRing deg (nbr order)^deg)^N     Morgan.atoms_order
   morgan K (n w)^K B (n deg (m b)^deg)^B                                                     _morgan(atoms, bonds)
   cmorgan N (id z iso charge radical implH inRing stereo(-1|0|1) deg (nbr order bstereo(-1|0|1))^deg)^N           _chiral_morgan
+  cfull  (same wire as cmorgan)                                                              _chiral_morgan incl. cis/trans and allene labels (Model/C01Chiral.lean)
+  cumul  (same wire as cmorgan)                                                              MoleculeStereo.cumulenes: `ok P (len a…)^P`
   same   K (old new)^K <order-wire of a> <order-wire of b>                                    C01Check.checkSame (proved checker)
   hash   z iso charge radical implH inRing                                                   hash(atom)  (Element.__hash__)
   tuple  i0 i1 …                                                                             hash((i0, i1, …))
@@ -23,6 +26,17 @@ def singleOf (z : Nat) : Bool :=
   match ChythonModel.Gen.periodicTable.find? (·.z == z) with
   | some r => r.single
   | none => false
+
+/-- `is_forming_double_bonds` of the element with atomic number `z` (regenerated periodic table) -/
+def doubleOf (z : Nat) : Bool :=
+  match ChythonModel.Gen.periodicTable.find? (·.z == z) with
+  | some r => r.double
+  | none => false
+
+def showStop : ChiralFull.Stop → String
+  | .err e => "err " ++ e.name
+  | .notModelled => "notmodelled"
+  | .fuelOut => "fuelout"
 
 def parseNb : Nat → List Int → Option (List (Nat × Int) × List Int)
   | 0, rest => some ([], rest)
@@ -125,6 +139,34 @@ def handleInts (op : String) (xs : List Int) : Option String :=
         | .err e => some ("err " ++ e.name)
         | .notModelled => some "notmodelled"
         | .fuelOut => some "fuelout"
+      | _ => none
+    | [] => none
+  | "cfull" =>
+    match xs with
+    | n :: rest =>
+      if n < 0 then none else
+      match parseViewAtomsS n.toNat rest with
+      | some (rows, []) =>
+        let m : MolView := ⟨rows.map (fun r => (r.1, r.2.1)), rows.map (fun r => (r.1, r.2.2.2))⟩
+        let labels := rows.filterMap (fun r => r.2.2.1.map fun s => (r.1, s))
+        match ChiralFull.chiralFull pyHashTuple singleOf doubleOf m labels with
+        | .ranks r => some (showRanks r)
+        | .err e => some ("err " ++ e.name)
+        | .notModelled => some "notmodelled"
+        | .fuelOut => some "fuelout"
+      | _ => none
+    | [] => none
+  | "cumul" =>
+    match xs with
+    | n :: rest =>
+      if n < 0 then none else
+      match parseViewAtomsS n.toNat rest with
+      | some (rows, []) =>
+        let m : MolView := ⟨rows.map (fun r => (r.1, r.2.1)), rows.map (fun r => (r.1, r.2.2.2))⟩
+        match ChiralFull.cumulenes doubleOf m with
+        | .ok ps => some (" ".intercalate ("ok" :: toString ps.length :: ps.map fun p =>
+            " ".intercalate (toString p.length :: p.map toString)))
+        | .error s => some (showStop s)
       | _ => none
     | [] => none
   | "same" =>
